@@ -28,17 +28,30 @@ from .typecase import TCState, TypeCase, V, events_matching, find_message_loops
 FN = "AbsoluteSequence.get_message_pairings"
 
 
+def _level(e: ast.AST):
+    """One look-up level below `e`: `x[k]` and `x.get(k, <empty container>)` (a missing key reads as an empty table)."""
+    if isinstance(e, ast.Subscript):
+        return e.value
+    if isinstance(e, ast.Call) and isinstance(e.func, ast.Attribute) and e.func.attr == "get" and len(e.args) == 2 and not e.keywords:
+        d = e.args[1]
+        empty = (isinstance(d, (ast.Dict, ast.List, ast.Tuple, ast.Set)) and not (getattr(d, "keys", None) or getattr(d, "elts", None))) \
+            or (isinstance(d, ast.Call) and isinstance(d.func, ast.Name) and d.func.id in ("dict", "list", "tuple", "set") and not d.args)
+        if empty:
+            return e.func.value
+    return None
+
+
 def _base_name(e: ast.AST) -> str | None:
-    while isinstance(e, ast.Subscript):
-        e = e.value
+    while _level(e) is not None:
+        e = _level(e)
     return e.id if isinstance(e, ast.Name) else None
 
 
 def _depth(e: ast.AST) -> int:
     d = 0
-    while isinstance(e, ast.Subscript):
+    while _level(e) is not None:
         d += 1
-        e = e.value
+        e = _level(e)
     return d
 
 
